@@ -32,6 +32,57 @@ def yearPair (y a b : Nat) : Bool :=
 def yearLeapOK (_ r : Nat) : Bool :=
   decide (Rec.yLeap r ≤ 12) && Rec.yCount r == (if Rec.yLeap r > 0 then 13 else 12)
 
+/-! #### C04: the no-major-term rule, evaluated on a pair of consecutive year records
+(a = lunar year y−1, b = lunar year y; b carries the 13 zhongqi days of the solstice year ending in December y) -/
+
+/-- number and leap flag of the month with index idx in a year whose leap month is lp -/
+def numOf (lp idx : Nat) : Nat × Bool :=
+  if lp = 0 ∨ idx < lp then (idx + 1, false) else if idx = lp then (lp, true) else (idx, false)
+
+/-- index of the month of year record r containing day q (searching idx i.., n months left) -/
+def findMonth (r q : Nat) : Nat → Nat → Option Nat
+  | 0, _ => none
+  | n+1, i =>
+    if Nat.ble (Rec.sFirst (Rec.slot r i)) q && Nat.blt q (Rec.sFirst (Rec.slot r i) + Rec.sLen (Rec.slot r i))
+    then some i else findMonth r q n (i + 1)
+
+/-- does [f, f+l) contain one of the zhongqi days k.. (n left) of record b -/
+def hasQi (b f l : Nat) : Nat → Nat → Bool
+  | 0, _ => false
+  | n+1, k => (Nat.ble f (Rec.yQi b k) && Nat.blt (Rec.yQi b k) (f + l)) || hasQi b f l n (k + 1)
+
+/-- walk the months idx i.. (n left) of record r (leap month lp; zhongqi from b): each must carry the number the
+rule prescribes. State: previous number, leap already placed; `thirteen` = the solstice year has 13 lunations.
+Returns the final (number, leapPlaced) or none on a mismatch. -/
+def ruleWalk (thirteen : Bool) (b r lp : Nat) : Nat → Nat → Nat → Bool → Option (Nat × Bool)
+  | 0, _, prev, used => some (prev, used)
+  | n+1, i, prev, used =>
+    let f := Rec.sFirst (Rec.slot r i)
+    let l := Rec.sLen (Rec.slot r i)
+    let isLeapByRule := thirteen && !used && !hasQi b f l 13 0
+    let expected : Nat × Bool := if isLeapByRule then (prev, true) else (prev % 12 + 1, false)
+    if numOf lp i == expected then ruleWalk thirteen b r lp n (i + 1) expected.1 (used || isLeapByRule) else none
+
+/-- years outside the claim: before 27 (first reform period) and the AD 237–240 reform -/
+def suiExcluded (y : Nat) : Bool := Nat.blt y 27 || y == 238 || y == 239 || y == 240
+
+/-- C04 for one solstice year: a = record of lunar year y−1, b = record of lunar year y (the solstice year from
+the winter solstice of December y−1 to that of December y). The adjacent-pair index k has a = year k, b = year k+1. -/
+def suiCore (a b : Nat) : Bool :=
+  (match findMonth a (Rec.yQi b 0) (Rec.yCount a) 0, findMonth b (Rec.yQi b 12) (Rec.yCount b) 0 with
+   | some A, some B =>
+     let n := Rec.yCount a - A + B     -- lunations after A up to and including B
+     numOf (Rec.yLeap a) A == (11, false) && numOf (Rec.yLeap b) B == (11, false) && (n == 12 || n == 13) &&
+     (match ruleWalk (n == 13) b a (Rec.yLeap a) (Rec.yCount a - 1 - A) (A + 1) 11 false with
+      | none => false
+      | some (p, u) =>
+        match ruleWalk (n == 13) b b (Rec.yLeap b) (B + 1) 0 p u with
+        | none => false
+        | some (p2, u2) => p2 == 11 && (u2 == (n == 13)))
+   | _, _ => false)
+
+def suiPair (k a b : Nat) : Bool := suiExcluded (k + 1) || suiCore a b
+
 /-! #### terms (72-bit records, global index 24*(y-1)+i) -/
 
 /-- seconds on the civil time line of a term record -/
